@@ -105,7 +105,7 @@ class Static(BaseComponent):
                     url_up = ''
                 else:
                     url_up = os.path.join('/', os.path.split(path)[0]) if self.path is None else os.path.join(cur_dir, '..')
-                    url_up = '<li><a href="%s">%s</a></li>' % (escape(url_up, True), '..')
+                    url_up = '<li><a href="%s">%s</a></li>' % (escape(quote(url_up), True), '..')
 
                 listing = []
                 for item in os.listdir(directory):
